@@ -54,7 +54,9 @@ THEOREMS['C04'] = ['FB.C04_exists_iff', 'FB.C04_not_both', 'FB.C04_listDir_iff',
                    'FB.Overlay.C04_start_exists', 'FB.Overlay.start_isFile', 'FB.Overlay.start_isDir',
                    'FB.Overlay.C04_start_matches_spec', 'FB.BuildDirs.preClean_gone_iff', 'FB.BuildDirs.preClean_isDir_iff',
                    'FB.BuildDirs.preClean_isFile_iff', 'FB.BuildDirs.isRemoved_specR', 'FB.BuildDirs.checkMaybeRemoved_specR',
-                   'FB.BuildDirs.handleDirExists_qinvR', 'FB.BuildDirs.init_qinvR', 'FB.BuildDirs.hasCount_iff_live']
+                   'FB.BuildDirs.handleDirExists_qinvR', 'FB.BuildDirs.init_qinvR', 'FB.BuildDirs.hasCount_iff_live',
+                   'FB.C04_view_wellformed', 'FB.C04_build_view_wellformed', 'FB.wf_visible', 'FB.bfSetup_good', 'FB.wf_preClean',
+                   'FB.C04_target_hidden_while_running', 'FB.C04_target_visible_after_return', 'FB.C04_target_gone_after_failure']
 THEOREMS['C02'] = ['FB.C02_rolledBack_frame', 'FB.C02_rolledBack_files', 'FB.C02_spec_build_raises', 'FB.Backups.restoreAll_spec',
                    'FB.Backups.restoreOne_self', 'FB.Backups.restoreOne_other', 'FB.Backups.backUp_file',
                    'FB.Rollback.rollBack_restores_files', 'FB.Rollback.removeNew_spec', 'FB.Rollback.restoreAll_file_from',
